@@ -94,10 +94,12 @@ type scenario struct {
 	LateSkip bool
 	Repeat   int // the issuing statement runs this many times in a row (0/1: once)
 	PrevSkip int // -1: none; otherwise SetSkip(PrevSkip) is called before the final skip is set
+	// UsedFirst (with LateSkip): records are issued through the logger, the handler and the bridge before the late SetSkip
+	UsedFirst bool
 }
 
 func (s scenario) String() string {
-	return fmt.Sprintf("%s format=%s logger=%s skip=%d(%s, previous SetSkip %d, set after adapters were built=%v) wrappers=%d inlinable=%v privacy=%v", sites[s.Site].Name, s.Format, s.Kind, s.Skip, s.SkipHow, s.PrevSkip, s.LateSkip, s.Depth, s.Inlinable, s.Privacy)
+	return fmt.Sprintf("%s format=%s logger=%s skip=%d(%s, previous SetSkip %d, set after adapters were built=%v and used=%v) wrappers=%d inlinable=%v privacy=%v", sites[s.Site].Name, s.Format, s.Kind, s.Skip, s.SkipHow, s.PrevSkip, s.LateSkip, s.UsedFirst, s.Depth, s.Inlinable, s.Privacy)
 }
 
 func run(t vlib.TB, test string, sc scenario) {
@@ -166,6 +168,18 @@ func run(t vlib.TB, test string, sc scenario) {
 		}
 	}
 	if late {
+		if sc.UsedFirst {
+			// records have gone through the logger, the handler (and one derived from it) and the bridge under the earlier
+			// skip count: whatever they resolved then must not outlive the SetSkip that follows
+			lg.Info("a record before the skip count changes")
+			if c.sl != nil {
+				c.sl.Info("a record through the handler before the skip count changes")
+				c.slw.Info("a record through a derived handler before the skip count changes")
+			}
+			if c.std != nil {
+				c.std.Print("a record through the bridge before the skip count changes")
+			}
+		}
 		lg.SetSkip(sc.Skip)
 	}
 	vlib.SetFlagsVia(sc.FlagsHow, flags, slog.Lcaller|slog.Llineno|slog.Lcallerpackagename|slog.Lprivacypath) // after NewSlogHandler, which edits the caller flag
@@ -297,6 +311,7 @@ func TestSampled(t *testing.T) {
 		sc.PrevSkip = rapid.SampledFrom([]int{-1, -1, 0, 1, 3}).Draw(t, "previousSkip")
 		sc.FlagsHow = rapid.SampledFrom([]int{0, 0, 1, 2, 3, 4}).Draw(t, "flagsHow")
 		sc.LateSkip = rapid.Bool().Draw(t, "skipSetAfterAdaptersBuilt")
+		sc.UsedFirst = rapid.Bool().Draw(t, "adaptersUsedBeforeTheSkipChanges")
 		sc.Repeat = rapid.SampledFrom([]int{1, 1, 2, 3}).Draw(t, "recordsFromTheSameStatement")
 		run(t, "TestSampled", sc)
 	})
@@ -321,6 +336,7 @@ func TestMatrix(t *testing.T) {
 								if how == "SetSkip" && !inl && depth == skip && (sites[si].Kind == "bridge" || sites[si].Kind == "adapter" || sites[si].Kind == "adapterpkg") {
 									// the same cell with the skip count set after the handler / bridge was built
 									run(t, "TestMatrix", scenario{Site: si, Format: f, Kind: k, Skip: skip, SkipHow: how, Depth: depth, Inlinable: inl, Privacy: true, PrevSkip: -1, LateSkip: true})
+									run(t, "TestMatrix", scenario{Site: si, Format: f, Kind: k, Skip: skip, SkipHow: how, Depth: depth, Inlinable: inl, Privacy: true, PrevSkip: -1, LateSkip: true, UsedFirst: true})
 									n++
 								}
 								if how == "SetSkip" && !inl && depth == 4 {
